@@ -90,13 +90,27 @@ def runList (env : Env) : TList → List ListOp → List J
 /-- An operation of a dict / object history: a `DictOp`, or a rebind with (nested) key paths. -/
 abbrev AnyOp := TOp
 
+/-- The harness's ground truth of partiality (`deep_missing`): some member, at any depth, is
+`MISSING_VALUE` or a partial object — also below `Any`-typed fields, about which the schema (and so
+`conformsDB`) says nothing. -/
+partial def deepMissing : Val → Bool
+  | .missing => true
+  | .obj _ _ part => part
+  | .list xs => xs.any deepMissing
+  | .tuple xs => xs.any deepMissing
+  | .dict kvs => kvs.any (fun kv => deepMissing kv.2)
+  | _ => false
+
+def completeB (env : Env) (d : TDict) : Bool :=
+  conformsDB env false d && !(d.kvs.any fun kv => deepMissing kv.2)
+
 def runDict (env : Env) (p0 : Bool) : TDict → List (AnyOp × Option Bool) → List J
   | _, [] => []
   | d, (op, scope) :: ops =>
     let p := scope.getD p0
     let (d', e) := tStep env p hasMissing d op
     .obj [("err", errJ e), ("items", kvsToJ d'.kvs), ("conforms", .bool (conformsDB env true d')),
-          ("complete", .bool (conformsDB env false d'))] :: runDict env p0 d' ops
+          ("complete", .bool (completeB env d'))] :: runDict env p0 d' ops
 
 def anyOpOfJ : J → Option AnyOp
   | .arr [.str "rebind_paths", .arr ws] => (ws.mapM pathEntryOfJ).map .paths
@@ -127,7 +141,7 @@ def handle (j : J) : J :=
         match c with
         | .error e => .obj [("construct", .str (eName e)), ("steps", .arr [])]
         | .ok d => .obj [("construct", kvsToJ d.kvs), ("conforms", .bool (conformsDB env true d)),
-                         ("complete", .bool (conformsDB env false d)),
+                         ("complete", .bool (completeB env d)),
                          ("steps", .arr (runDict env p d ops))]
       | _, _, _, _ => bad "dict"
     else bad "op"
